@@ -133,7 +133,7 @@ class Exhaustive(Part):
     delay/yield x both default thread orders, for small programs (complete in the thorough tier, strided in quick)"""
 
     name = "exhaustive"
-    budget = {"quick": 16, "thorough": 400}
+    budget = {"quick": 16, "thorough": 250}
     min_per_shard = 1
 
     def setup(self, ctx):
